@@ -9,6 +9,67 @@
 #include "sched_epoch.h"
 #endif
 
+#ifdef VF_ALLOC_TRACK
+// C11 (SCHED part): the DDL races of C13 under allocation accounting: whatever a losing create_storage / delete_storage
+// allocated speculatively must be released again.
+static vf::CaseResult run_ddl_leak(const vf::RunnerArgs& a, const std::vector<std::uint8_t>& b, bool record, vf::Stats& st) {
+    static std::uint32_t gen = 100;
+    static bool warmed = false;
+    auto once = [&](bool judge, bool rec) {
+        vf::CaseResult r;
+        const std::uint32_t g = ++gen;
+        const std::uint64_t err0 = track::errors();
+        std::uint64_t leaked = 0;
+        std::uint64_t leaked_bytes = 0;
+        {
+            vf::Stats tmp;
+            track::set_generation(g);
+            r = misc::run_ddl(a, b, rec, tmp);
+            track::set_generation(0);
+            if (rec) {
+                st.checks += tmp.checks;
+                for (auto& [k, v] : tmp.classes) { st.cls(k, v); }
+                for (auto fp : tmp.nontrivial_fp) { st.nontrivial(fp); }
+                for (auto& [k, v] : tmp.samples) {
+                    for (auto& s : v) { st.sample(k, s); }
+                }
+            }
+            track::set_generation(g);
+        }
+        track::set_generation(0);
+        leaked = track::live_in_generation(g, &leaked_bytes);
+        if (judge && r.pass && !r.inconclusive) {
+            ++st.checks;
+            if (leaked != 0) {
+                char buf[400];
+                track::describe_generation(g, buf, sizeof buf);
+                r.pass = false;
+                r.signature = "leak";
+                r.message = std::to_string(leaked) + " block(s), " + std::to_string(leaked_bytes) + " bytes allocated during concurrent create/delete_storage are still live: " + buf;
+            } else if (track::errors() != err0) {
+                r.pass = false;
+                r.signature = "bad_delete";
+                r.message = track::last_error();
+            }
+        }
+        return r;
+    };
+    if (!warmed) {
+        warmed = true;
+        std::vector<std::uint8_t> rich(120);
+        for (std::size_t i = 0; i < rich.size(); ++i) { rich[i] = static_cast<std::uint8_t>(i * 29 + 3); }
+        vf::RunnerArgs aa = a;
+        (void) aa;
+        once(false, false);
+        std::swap(rich, const_cast<std::vector<std::uint8_t>&>(b));
+        once(false, false);
+        std::swap(rich, const_cast<std::vector<std::uint8_t>&>(b));
+    }
+    if (a.mode == "replay") { once(false, false); }
+    return once(true, record);
+}
+#endif
+
 int main(int argc, char** argv) {
     FLAGS_logtostderr = true;
     FLAGS_minloglevel = 3;
@@ -16,6 +77,8 @@ int main(int argc, char** argv) {
     vf::RunnerArgs args = vf::parse_args(argc, argv);
 #ifdef VF_ALLOC_TRACK
     track::enable(true);
+    sched::Scheduler::get().prewarm(6);
+    (void) vf::slice_pool(); // function-local static: first use must not be attributed to a case
     if (args.prop == "C16" || args.prop == "C07") {
         // every case must be a pure function of its bytes: the first init()/fin() cycle of a process can only happen once, so
         // it is spent here and every generated cycle is "a later cycle" (which is what C16 is about)
@@ -27,6 +90,7 @@ int main(int argc, char** argv) {
 #ifdef VF_ALLOC_TRACK
         if (a.prop == "C16") { return epo::run_c16(a, b, record, st); }
         if (a.prop == "C07") { return epo::run_c07(a, b, record, st); }
+        if (a.prop == "C11") { return run_ddl_leak(a, b, record, st); }
 #endif
         if (a.prop == "C14") { return misc::run_sessions(a, b, record, st); }
         if (a.prop == "C17") { return misc::run_version(a, b, record, st); }
